@@ -44,7 +44,7 @@ def gen_case(rng, tier):
             # knows labels no row has
             one = rng.randrange(2)
             col = [None if r is None else one for r in col]
-        kind = rng.choice([k for k in ["int", "float", "str", "cat", "cat", "dt", "bool", "enum"] if api.kind_ok(col, "cat" if k == "enum" else k)])
+        kind = rng.choice([k for k in ["int", "float", "str", "cat", "cat", "dt", "dttz", "bool", "enum"] if api.kind_ok(col, "cat" if k == "enum" else k)])
         keycols.append(col); kinds.append(kind)
         catorders.append(rng.choice(CAT_ORDERS) if kind in ("cat", "enum") else None)
         names.append(f"key{j}" if kind == "enum" else rng.choice([f"key{j}", f"key{j}", None]))   # a polars Series always has a name
